@@ -169,9 +169,9 @@ fn run_in_thread(family: Family, mode: Mode) -> RunOut {
             async move {
                 match p2.role {
                     Role::S5 => crate::app_v5::run_server(w2.clone(), p2.clone()).await,
-                    _ => {
-                        *w2.setup_error.borrow_mut() = Some("role not implemented".into());
-                    }
+                    Role::S3 => crate::app_v3::run_server(w2.clone(), p2.clone()).await,
+                    Role::C5 => crate::app_v5::run_client(w2.clone(), p2.clone()).await,
+                    Role::C3 => crate::app_v3::run_client(w2.clone(), p2.clone()).await,
                 }
                 w2.wait_finished().await;
             },
